@@ -47,6 +47,8 @@ func main() {
 			"per-datagram fates drop/deliver/dup/delay, 0..2 faulty sync rounds with per-connection fates refuse/reset/short/garble/pass, 0..2 decoy map entries, optional rotation or restart, one fault-free round) judged by the oracle; " +
 			"'dense' scenarios: 16..40 consecutive slots starting at a multiple of 8 of the window (or +1/+7), all originals delivered except the slot right after one or two completely received bitfield bytes and a few others, optionally one lost row rewritten by the meter after it was reported; " +
 			"'cutoff' scenarios: 500..600 missing slots older than the acceptance range (refused for ever) in front of 10..30 lost slots inside it; 'fdshort' scenarios: a transient descriptor shortage makes accept() fail on the server, then heals; " +
+			"'udpdown' scenarios: the UDP port the device reports to is really closed while its newest rows are first reported and open again before the final round; " +
+			"'ownround' scenarios: the client's own background round (stale stamp, first round refused) is the fault-free round; new rows appear exactly in the report-loop pass that launches it (send.loop hook) and their originals are lost; " +
 			"'twoserver' scenarios: two real servers hold the device, every original lost, round A re-sends 300..500 reports to one server while an overlapping round B is refused there and completes on the other; each server whose round completed is judged. " +
 			"Non-trivial = at least one required slot was absent on the server immediately before the final round and present after it (the recovery path was really exercised); " +
 			"distinct by (slot classes, per-slot loss history, sync fates, event).",
@@ -83,6 +85,9 @@ func main() {
 			c.Require("cutoff_scenarios_judged", 3)
 			c.Require("cutoff.500_expired_then_recoverable_before_final_round", 3)
 			c.Require("fdshort_scenarios_judged", 2)
+			c.Require("udpdown_scenarios_judged", 3)
+			c.Require("ownround_scenarios_judged", 3)
+			c.Require("ownround.rows_first_reported_in_the_launching_pass_and_lost", 3)
 			c.Require("event.fdshort_accept_failures_seen", 2)
 			c.Require("two_server.scenarios_judged", 3)
 			c.Require("two_server.round_b_reached_other_server_while_round_a_was_resending", 2)
@@ -120,6 +125,8 @@ func plan(tier string, seed int64) []run.Batch {
 		add("cutoff", 0, 2, 200)
 		add("cutoff", 2, 4, 200)
 		add("fdshort", 0, 3, 200)
+		add("udpdown", 0, 4, 200)
+		add("ownround", 0, 4, 200)
 		x := int(uint64(seed)*2654435761%uint64(1<<(2*exhaustiveM))) &^ 63
 		for i := 0; i < 256; i += 64 {
 			add("exhaustive", (x+i)%(1<<(2*exhaustiveM)), (x+i)%(1<<(2*exhaustiveM))+64, 240)
@@ -140,6 +147,10 @@ func plan(tier string, seed int64) []run.Batch {
 	}
 	for i := 0; i < 40; i += 5 {
 		add("fdshort", i, i+5, 240)
+	}
+	for i := 0; i < 40; i += 10 {
+		add("udpdown", i, i+10, 240)
+		add("ownround", i, i+10, 240)
 	}
 	for i := 0; i < 1<<(2*exhaustiveM); i += 64 {
 		add("exhaustive", i, i+64, 240)
@@ -412,6 +423,7 @@ func runScenario(sc *scenario, b run.Batch, r *ev.Result) (fatal bool) {
 	dense := sc.Kind == "dense"
 	cutoff := sc.Kind == "cutoff"
 	fdshort := sc.Kind == "fdshort"
+	udpdown := sc.Kind == "udpdown"
 
 	// ---- server
 	if exh {
@@ -656,6 +668,22 @@ func runScenario(sc *scenario, b run.Batch, r *ev.Result) (fatal bool) {
 		sc.Event, sc.LateGroup, sc.LateOrig = "fdshort", false, false
 		sc.Now1 = sc.Now0 + uint32(rng.Intn(40))
 	}
+	if udpdown {
+		// generated like a random scenario; the device's UDP target is really closed for a
+		// moment while its newest rows are first reported, and open again before the final round
+		sc.Event, sc.LateOrig, sc.InitialG0, sc.Decoys, sc.Groups, sc.LateGroup = "udpdown", false, false, 0, 2, true
+		sc.Now1 = sc.Now0 + uint32(rng.Intn(40))
+		nl := 1 + rng.Intn(2)
+		for i := range sc.Rows {
+			sc.Rows[i].Group = 0
+			if i >= len(sc.Rows)-nl {
+				sc.Rows[i].Group = 1
+			}
+		}
+		for k := range sc.Rounds {
+			sc.Rounds[k] = sc.Rounds[k][:1]
+		}
+	}
 	drv.SetClock(sc.Now0)
 	minSlot, latest := sc.Rows[0].Slot, sc.Rows[0].Slot
 	for _, rw := range sc.Rows {
@@ -829,6 +857,28 @@ func runScenario(sc *scenario, b run.Batch, r *ev.Result) (fatal bool) {
 	}
 	x.proxy.SetPlan(nil)
 
+	// ---- the UDP port the device reports to is closed for a moment
+	if sc.Event == "udpdown" {
+		if err := x.relay.Barrier(); err != nil {
+			return inconc("%v", err)
+		}
+		x.trace("UDP port of the device's server is closed; rows of group %d appear and are reported into the closed port", sc.Groups-1)
+		x.relay.ClosePort()
+		err := env.WriteEnergy(energyFile(sc.Rows, sc.Groups-1, glow.GenesisTime, sc.Seed))
+		ticked := err == nil && waitTicks(client.VerifTicks()+2)
+		if rerr := x.relay.ReopenPort(); rerr != nil {
+			return inconc("relay port could not be bound again: %v", rerr)
+		}
+		if err != nil || !ticked {
+			return inconc("udp outage: energy file %v, loop ticked %v", err, ticked)
+		}
+		x.trace("UDP port is open again")
+		if err := x.relay.Barrier(); err != nil {
+			return inconc("%v", err)
+		}
+		r.Count("event.udpdown", 1)
+	}
+
 	// ---- transient descriptor shortage on the server
 	if sc.Event == "fdshort" {
 		if err := x.relay.Barrier(); err != nil {
@@ -893,7 +943,7 @@ func runScenario(sc *scenario, b run.Batch, r *ev.Result) (fatal bool) {
 	} else {
 		drv.SetClock(sc.Now1)
 	}
-	if sc.LateGroup && !strings.Contains(sc.Event, "restart") {
+	if sc.LateGroup && !strings.Contains(sc.Event, "restart") && sc.Event != "udpdown" {
 		x.relay.SetPhase("late-originals", fateRandom("l", 45, 30, 10, 15))
 		if err := x.writeGroup(env, sc.Groups-1); err != nil {
 			return inconc("%v", err)
@@ -989,6 +1039,9 @@ func runScenario(sc *scenario, b run.Batch, r *ev.Result) (fatal bool) {
 	}
 	if fdshort {
 		r.Count("fdshort_scenarios_judged", 1)
+	}
+	if udpdown {
+		r.Count("udpdown_scenarios_judged", 1)
 	}
 	if dense {
 		r.Count("dense_scenarios_judged", 1)
@@ -1100,6 +1153,11 @@ func child(b run.Batch, r *ev.Result) {
 	fmt.Sscan(b.P("to"), &to)
 	for i := from; i < to; i++ {
 		sc := &scenario{Kind: b.Kind, Index: i}
+		if b.Kind == "ownround" {
+			sc.Seed = b.Seed*1000003 + 650000 + int64(i)
+			runOwnRound(sc, b, r)
+			continue
+		}
 		if b.Kind == "twoserver" {
 			sc.Seed = b.Seed*1000003 + 600000 + int64(i)
 			runTwoServer(sc, b, r)
@@ -1109,6 +1167,8 @@ func child(b run.Batch, r *ev.Result) {
 			sc.Seed = b.Seed*1000003 + 400000 + int64(i)
 		} else if b.Kind == "fdshort" {
 			sc.Seed = b.Seed*1000003 + 450000 + int64(i)
+		} else if b.Kind == "udpdown" {
+			sc.Seed = b.Seed*1000003 + 470000 + int64(i)
 		} else if b.Kind == "dense" {
 			sc.Seed = b.Seed*1000003 + 300000 + int64(i)
 		} else if b.Kind == "exhaustive" {
